@@ -26,14 +26,19 @@ Record fstate := {
   f_snap : list entry;         (* entries of the snapshot not yet written *)
   f_cur : option entry;        (* the write the listener is suspended in *)
   f_written : list entry;      (* successful transport writes, oldest first *)
-  f_sent : list entry          (* completed send calls, oldest first *)
+  f_sent : list entry;         (* completed send calls, oldest first *)
+  f_direct : option (entry * option Z)
+      (* a send for a node flagged awake whose transport.write is suspended, with the tag of the
+         parked entry it supersedes (read before the write, as handle_set does) *)
 }.
 
 Inductive fop :=
 | FSend (k : fkey) (t : Z)     (* another task: gateway.send(Message(k, value t)) completes (parks) *)
 | FWake (n : Z)                (* the listener starts a flush for node n (only when idle) *)
 | FBegin                       (* the listener starts the next write of the snapshot *)
-| FEnd (ok : bool).            (* the suspended write completes or fails *)
+| FEnd (ok : bool)             (* the suspended write completes or fails *)
+| FDirectBegin (k : fkey) (t : Z)  (* another task sends to a node flagged awake: the write is called and suspends *)
+| FDirectEnd (ok : bool).      (* that write completes: it drops the parked entry it superseded, if still there *)
 
 Definition node_of (e : entry) : Z := let '(n, _, _) := fst e in n.
 
@@ -43,19 +48,19 @@ Definition fstep (guarded : bool) (s : fstate) (o : fop) : fstate :=
   match o with
   | FSend k t =>
       {| f_buf := bset (f_buf s) k t; f_snap := f_snap s; f_cur := f_cur s;
-         f_written := f_written s; f_sent := f_sent s ++ [(k, t)] |}
+         f_written := f_written s; f_sent := f_sent s ++ [(k, t)]; f_direct := f_direct s |}
   | FWake n =>
       match f_cur s, f_snap s with
       | None, [] =>
           {| f_buf := f_buf s; f_snap := filter (fun e => Z.eqb (node_of e) n) (f_buf s);
-             f_cur := None; f_written := f_written s; f_sent := f_sent s |}
+             f_cur := None; f_written := f_written s; f_sent := f_sent s; f_direct := f_direct s |}
       | _, _ => s
       end
   | FBegin =>
       match f_cur s, f_snap s with
       | None, e :: r =>
           {| f_buf := f_buf s; f_snap := r; f_cur := Some e;
-             f_written := f_written s; f_sent := f_sent s |}
+             f_written := f_written s; f_sent := f_sent s; f_direct := f_direct s |}
       | _, _ => s
       end
   | FEnd ok =>
@@ -70,11 +75,33 @@ Definition fstep (guarded : bool) (s : fstate) (o : fop) : fstate :=
                               end
                          else bpop (f_buf s) k);
                f_snap := f_snap s; f_cur := None;
-               f_written := f_written s ++ [(k, t)]; f_sent := f_sent s |}
+               f_written := f_written s ++ [(k, t)]; f_sent := f_sent s; f_direct := f_direct s |}
           else
             (* the transport error ends the flush; nothing is popped *)
             {| f_buf := f_buf s; f_snap := []; f_cur := None;
-               f_written := f_written s; f_sent := f_sent s |}
+               f_written := f_written s; f_sent := f_sent s; f_direct := f_direct s |}
+      end
+  | FDirectBegin k t =>
+      match f_direct s with
+      | Some _ => s
+      | None =>
+          {| f_buf := f_buf s; f_snap := f_snap s; f_cur := f_cur s; f_written := f_written s;
+             f_sent := f_sent s ++ [(k, t)]; f_direct := Some ((k, t), bget (f_buf s) k) |}
+      end
+  | FDirectEnd ok =>
+      match f_direct s with
+      | None => s
+      | Some ((k, t), sup) =>
+          if ok then
+            {| f_buf := (match sup, bget (f_buf s) k with
+                         | Some t0, Some t' => if Z.eqb t' t0 then bpop (f_buf s) k else f_buf s
+                         | _, _ => f_buf s
+                         end);
+               f_snap := f_snap s; f_cur := f_cur s;
+               f_written := f_written s ++ [(k, t)]; f_sent := f_sent s; f_direct := None |}
+          else
+            {| f_buf := f_buf s; f_snap := f_snap s; f_cur := f_cur s;
+               f_written := f_written s; f_sent := f_sent s; f_direct := None |}
       end
   end.
 
@@ -82,7 +109,7 @@ Definition frun (guarded : bool) (s : fstate) (ops : list fop) : fstate :=
   fold_left (fstep guarded) ops s.
 
 Definition finit : fstate :=
-  {| f_buf := []; f_snap := []; f_cur := None; f_written := []; f_sent := [] |}.
+  {| f_buf := []; f_snap := []; f_cur := None; f_written := []; f_sent := []; f_direct := None |}.
 
 (* finish the flush in progress without faults, then wake every node of [nodes]
    once more, without concurrent sends *)
